@@ -187,6 +187,22 @@ def check_spa_lists(rep, repo):
                 proj = ch[0][0]
                 if idx != lec_of(proj):
                     problem = ('the mask is indexed by %s, not by the lecturer of the project looked up in the project->lecturer table' % show(idx).replace(show(proj), 'proj'), idx)
+    # (a') the same mask read by position:  [lec for lec in range(1, n3 + 1) if mask[lec - 1]]  (itertools.compress)
+    while c[0] == 'call' and c[1] in (S('list'), S('tuple')) and len(c[2]) == 1:
+        c = c[2][0]
+    if kind is None and c[0] == 'comp' and len(c[1]) == 1 and c[2] == c[1][0][0]:
+        lb, g = c[1][0]
+        d_ = lb[3]
+        if d_[0] == 'call' and d_[1] == S('range') and len(d_[2]) == 2 and d_[2][0] == C(1) and g[0] == 'idx' and g[2] == BIN('Sub', lb, C(1)) and g[1][0] == 'accum' \
+                and g[1][1][0] == 'bin' and g[1][1][1] == 'Mult' and len(g[1][2]) == 1:
+            mask = g[1]
+            size = mask[1][3] if mask[1][2][0] == 'list' else mask[1][2]
+            op, idx, val, ch = mask[2][0]
+            if op == 'setidx' and val == TRUE and len(ch) == 1 and ch[0][0][3] == own and ch[0][1] == TRUE and d_[2][1] in (BIN('Add', size, C(1)), BIN('Add', C(1), size)):
+                kind = 'mask'
+                proj = ch[0][0]
+                if idx != lec_of(proj):
+                    problem = ('the mask is indexed by %s, not by the lecturer of the project looked up in the project->lecturer table' % show(idx).replace(show(proj), 'proj'), idx)
     # (b) set: sorted(set(lookup(p) for p in own)) / sorted({..})
     if kind is None and c[0] == 'call' and c[1] == S('sorted') and len(c[2]) == 1:
         s_ = c[2][0]
